@@ -472,13 +472,17 @@ Value Endgame<kKBPsKB>::strongSideScore(const Position& position) const
             {
                 const Square block1Sq = make_square(Rank(rank(furthestPawnSq) + 1), file1);
                 const Square block2Sq = make_square(rank(furthestPawnSq), file2);
+                // position.pieces() is not normalized, so attacks of the weak bishop
+                // have to be computed and tested on real (not normalized) squares
+                const Bitboard weakBishopAttacks =
+                    slider_attack<BISHOP>(normalize(weakBishopSq, strongSide), position.pieces());
                 if (weakKingSq ==  block1Sq &&
                         (weakBishopSq == block2Sq ||
-                         slider_attack<BISHOP>(weakBishopSq, position.pieces()) & square_bb(block2Sq)))
+                         weakBishopAttacks & square_bb(normalize(block2Sq, strongSide))))
                     return VALUE_POSITIVE_DRAW + 10 * Value(popcount(pawns)) + 2 * Value(rank(furthestPawnSq));
                 if (weakKingSq == block2Sq &&
                         (weakBishopSq == block1Sq ||
-                         slider_attack<BISHOP>(weakBishopSq, position.pieces()) & square_bb(block1Sq)))
+                         weakBishopAttacks & square_bb(normalize(block1Sq, strongSide))))
                     return VALUE_POSITIVE_DRAW + 10 * Value(popcount(pawns)) + 2 * Value(rank(furthestPawnSq));
             }
         }
